@@ -21,7 +21,7 @@ from vlib import core, snap, docgen, faults
 from props import c19
 
 PID = 'C08'
-TRANSLATORS = ['err_classes', 'load_order']
+TRANSLATORS = ['err_classes', 'load_order', 'xsd_table']
 LEAN_PROPS = ['Pyc.Props.C08', 'Pyc.Props.C08b']
 LEAN_MODULES = ['Pyc.Model.Errors', 'Pyc.Model.DocLoad']
 META = dict(
@@ -138,6 +138,7 @@ def by_key(doc):
     return out
 
 
+REQ_LOG = []       # (grandparent, parent, index, child names, verdict of vlib/xsdreq.py) for the correspondence with Pyc.Schema.requiredChild
 COMBINATION = {'xfov', 'yfov', 'xmag', 'ymag', 'aspect_ratio'}   # the loader documents an invalid combination of these as malformed
 
 
@@ -148,10 +149,13 @@ def schema_required(data, site):
     parent = dict((c, p) for p in root.iter() for c in p)
     el = list(root.iter())[site[1]]
     kids = [faults.local(k) for k in el]
+    gp = parent.get(el)
+    verdict = xsdreq.required_child(core.REPO, faults.local(gp) if gp is not None else '', faults.local(el), kids, site[2])
+    if len(REQ_LOG) < 3000 and all(' ' not in k and ';' not in k for k in kids):
+        REQ_LOG.append((faults.local(gp) if gp is not None else '-', faults.local(el), site[2], kids, verdict))
     if kids[site[2]] in COMBINATION:
         return False
-    gp = parent.get(el)
-    return bool(xsdreq.required_child(core.REPO, faults.local(gp) if gp is not None else '', faults.local(el), kids, site[2]))
+    return bool(verdict)
 
 
 def check_fault(data, site, base):
@@ -325,6 +329,7 @@ def make_base(seed, kind):
 
 
 def run(ctx):
+    del REQ_LOG[:]
     ctx.rule = ('base documents from vlib/docgen.py and controller documents from the C19 generator; every element, attribute and numeric token is a site '
                 '(sampled per document in the quick tier, enumerated completely for some documents in the thorough tier); kinds: dangling, nohash, nonnumeric, emptied, '
                 'dropchild, dropattr, truncated (at 10 fractions); pairs of faults; ignore configurations: none, exact class, DaeError, unrelated class; '
@@ -405,6 +410,17 @@ def run(ctx):
                 reported.add('corr:doc')
                 ctx.violation('corr:doc', 'loader and Pyc.DocLoad.loadDoc disagree under mask %r: model %r, loader %r' % (mask, m, w),
                               dict(kind='docload-corr', seed=dseed, mask=mask, line=l), found_input=False)
+    # the "schema requires this child" oracle (vlib/xsdreq.py, Python regular expressions) against Pyc.Schema.requiredChild
+    # (Brzozowski matching over the content models generated from the shipped XSD)
+    if ctx.lean_ok and REQ_LOG:
+        rl = ['req %s %s %d ; %s' % (gp, par, i, ' '.join(kids)) for gp, par, i, kids, v in REQ_LOG]
+        for l, (gp, par, i, kids, v), m in zip(rl, REQ_LOG, ctx.driver('C08c', rl)):
+            ctx.count('kernel:required-child')
+            w = 'none' if v is None else str(bool(v)).lower()
+            if m != w and 'corr:required-child' not in reported:
+                reported.add('corr:required-child')
+                ctx.violation('corr:required-child', 'vlib/xsdreq.py and Pyc.Schema.requiredChild disagree on %r: model %r, oracle %r' % (l, m, w),
+                              dict(kind='kernel', line=l), found_input=False)
     # mask clearing on the real object
     import collada
     d = collada.Collada()
